@@ -5,8 +5,10 @@ import (
 	"fmt"
 	"io"
 	"os"
+	"sort"
 	"strconv"
 	"strings"
+	"sync"
 
 	"perkeep.org/pkg/blob"
 	"perkeep.org/pkg/blobserver"
@@ -25,7 +27,7 @@ import (
 //	                                            functions (for the model only)      -> ok <size> t=<n> o=<n> | err
 //	fetch <ref>                                 -> ok <len> <fnv64> | notexist | err
 //	sub <ref> <off> <len>                       -> ok <len> <fnv64> | notexist | err
-//	stat <ref>                                  -> <size> | notexist | err
+//	stat <ref>...                               -> ref:size,... (every StatBlobs callback, sorted) | - | err
 //	enum <afterhex> <limit>                     -> ref:size,... | -
 //	rm <ref>...                                 -> ok | err
 //	restart none|fast|full                      -> <ok|err|panic> <integrity class logged by the constructor>
@@ -259,21 +261,37 @@ func (st *execState) exec(w []string) string {
 		}
 		return showBytes(all)
 	case "stat":
-		if len(w) != 2 {
+		// StatBlobs of all the refs in one call; EVERY callback is kept (a blob reported twice shows twice)
+		if len(w) < 2 {
 			return "bad-op"
 		}
-		br, ok := blob.Parse(w[1])
-		if !ok || !isRef(w[1]) {
-			return "bad-op"
+		var refs []blob.Ref
+		for _, s := range w[1:] {
+			br, ok := blob.Parse(s)
+			if !ok || !isRef(s) {
+				return "bad-op"
+			}
+			refs = append(refs, br)
 		}
 		if !needSto() {
 			return "nosto"
 		}
-		sb, err := blobserver.StatBlob(ctx, wd.sto, br)
+		var mu sync.Mutex
+		var got []string
+		err := wd.sto.StatBlobs(ctx, refs, func(sb blob.SizedRef) error {
+			mu.Lock()
+			got = append(got, fmt.Sprintf("%s:%d", sb.Ref, sb.Size))
+			mu.Unlock()
+			return nil
+		})
 		if err != nil {
 			return errClass(err)
 		}
-		return fmt.Sprint(sb.Size)
+		if len(got) == 0 {
+			return "-"
+		}
+		sort.Strings(got)
+		return strings.Join(got, ",")
 	case "enum":
 		if len(w) != 3 {
 			return "bad-op"
